@@ -336,7 +336,8 @@ def resKey (c : CompSpec) (p : Bool) : Run → Option Key
   | _ => none
 
 theorem lookup_cases {s s1 : SSt} {k : Key} {v : Val} (h : s.lookup k = some (v, s1)) :
-    (s1.res = s.res ∧ k ∈ akeys s.res) ∨ (s1.res = s.res ++ [(k, v)] ∧ k ∈ akeys s.fac) := by
+    (s1.res = s.res ∧ k ∈ akeys s.res) ∨
+      ((∃ ext, s1.res = s.res ++ ext ∧ ∀ k' ∈ akeys ext, k' ∈ akeys s.fac) ∧ k ∈ akeys s.fac) := by
   unfold SSt.lookup at h
   split at h
   · rename_i v' hv
@@ -347,7 +348,11 @@ theorem lookup_cases {s s1 : SSt} {k : Key} {v : Val} (h : s.lookup k = some (v,
     · rename_i fid hf
       simp only [Option.some.injEq, Prod.mk.injEq] at h
       obtain ⟨rfl, rfl⟩ := h
-      exact .inr ⟨rfl, (alookup_isSome_iff _ _).mp (by simp [hf])⟩
+      refine .inr ⟨⟨_, rfl, ?_⟩, (alookup_isSome_iff _ _).mp (by simp [hf])⟩
+      intro k' hk'
+      simp only [akeys, List.map_map, List.mem_map, Function.comp_apply] at hk'
+      obtain ⟨k'', hm, rfl⟩ := hk'
+      exact List.mem_map.mpr ⟨(k'', fid), (mem_genKeys.mp hm).1, rfl⟩
     · cases h
 
 theorem lookup_some_of_avail {s : SSt} {k : Key} (h : k ∈ akeys s.res ∨ k ∈ akeys s.fac) :
@@ -504,15 +509,15 @@ theorem step_move {prog : List CompSpec} {to : Bool} {a a' : SSt} {l : Lab} (hin
     · rw [hr]; exact .got _ _ _ _
     · simp [hr, facKey]
     · intro k' hk'
-      rcases lookup_cases h5 with ⟨e, _⟩ | ⟨e, hf⟩
+      rcases lookup_cases h5 with ⟨e, _⟩ | ⟨⟨ext, e, hext⟩, hf⟩
       · simp only [e] at hk'; exact .inl hk'
       · simp only [e, akeys_append, List.mem_append] at hk'
         rcases hk' with hk' | hk'
         · exact .inl hk'
-        · simp [akeys] at hk'; subst hk'; exact .inr (.inr hf)
+        · exact .inr (.inr (hext _ hk'))
     · intro k' hk'
       simp only [hr, resKey, reduceCtorEq, or_false] at hk'
-      rcases lookup_cases h5 with ⟨e, _⟩ | ⟨e, hf⟩
+      rcases lookup_cases h5 with ⟨e, _⟩ | ⟨⟨ext, e, hext⟩, hf⟩
       · simp only [e]; exact hk'
       · simp only [e, akeys_append, List.mem_append]; exact .inl hk'
   case gotOptSome i k v ph rest s1 h1 h3 h4 h5 =>
@@ -524,15 +529,15 @@ theorem step_move {prog : List CompSpec} {to : Bool} {a a' : SSt} {l : Lab} (hin
     · rw [hr]; exact .act _ _ rfl
     · simp [hr, facKey]
     · intro k' hk'
-      rcases lookup_cases h5 with ⟨e, _⟩ | ⟨e, hf⟩
+      rcases lookup_cases h5 with ⟨e, _⟩ | ⟨⟨ext, e, hext⟩, hf⟩
       · simp only [e] at hk'; exact .inl hk'
       · simp only [e, akeys_append, List.mem_append] at hk'
         rcases hk' with hk' | hk'
         · exact .inl hk'
-        · simp [akeys] at hk'; subst hk'; exact .inr (.inr hf)
+        · exact .inr (.inr (hext _ hk'))
     · intro k' hk'
       simp only [hr, resKey, reduceCtorEq, or_false] at hk'
-      rcases lookup_cases h5 with ⟨e, _⟩ | ⟨e, hf⟩
+      rcases lookup_cases h5 with ⟨e, _⟩ | ⟨⟨ext, e, hext⟩, hf⟩
       · simp only [e]; exact hk'
       · simp only [e, akeys_append, List.mem_append]; exact .inl hk'
   case gotOptNone i k ph rest h1 h3 h4 h5 =>
